@@ -1,7 +1,498 @@
-"""Tie B for C12 (placeholder until the property's translator is written): writes an empty
-coq/theories/Gen/GenC12.v so that the project builds."""
+"""Tie B for C12: regenerate coq/theories/Gen/GenC12.v from the CURRENT source - the table
+
+    transfer point  ->  copy discipline
+
+for every place at which a shared, cached object (pipeline definition, config.vars,
+config.shortcuts) is handed towards a run's context.  Proofs/GenC12Proofs.v proves the table
+equal to Alias.model_discipline (what Model/Alias.v's `step` assumes) and re-derives the C12
+invariant for the machine built from the generated table.
+
+How a discipline is found: a small abstract interpretation of the function's body.  Abstract
+values (sets, joined at control-flow merges) say how a value relates to the point's SOURCE
+expression (e.g. `self.in_parameters`):
+    SRC      the shared object itself (or a component of it)
+    FRESH    a new list whose elements are the shared object's elements: list(x), x + y, x.copy()
+    DEEP     copy.deepcopy(x)
+    REBUILT  x after formatting (get_formatted_value / get_formatted / vformat): every container
+             rebuilt - itself established from the formatter's source (point TPFormat)
+    OTHER    unrelated to the source
+The discipline of the point is the worst value reaching its SINK (e.g. argument 0 of
+`context.update(...)`) over all paths: SRC -> ByRef, FRESH -> FreshList, REBUILT -> Rebuilt,
+DEEP -> DeepCopy.
+
+Fail-closed: a statement / expression outside the subset below, a source value flowing into a
+call or display the interpreter does not know, or a source that never reaches the sink, makes the
+table come out as `gen_transfer_UNTRANSLATED` (reason in a comment), so every lemma of
+Proofs/GenC12Proofs.v stops compiling.
+Dropped (assumed effect-free for this analysis): docstrings, logger.* calls, assert, pass.
+Accepted: assignments to names, `x[k] = e`, augmented assignments of untainted values,
+expression statements (calls), if/elif/else, for, while, try/except/else, with, return, raise;
+expressions: names, attributes, constants, calls, subscripts, `.get`, `+`, conditional
+expressions, and/or, comparisons, displays and comprehensions that contain no source value.
+"""
+import ast
+import os
+import sys
 from pathlib import Path
-OUT = Path(__file__).resolve().parent.parent / 'coq' / 'theories' / 'Gen' / 'GenC12.v'
-TEXT = '(* Gen/GenC12.v - placeholder *)\n'
-if not OUT.exists() or OUT.read_text() != TEXT:
-    OUT.write_text(TEXT)
+
+REPO = Path(os.environ.get('VERIF_REPO', '/repo'))
+OUT = Path(os.environ.get('C12_GEN_OUT') or
+           Path(__file__).resolve().parent.parent / 'coq' / 'theories' / 'Gen' / 'GenC12.v')
+
+SRC, FRESH, DEEP, REBUILT, OTHER = 'SRC', 'FRESH', 'DEEP', 'REBUILT', 'OTHER'
+BADNESS = {DEEP: 0, REBUILT: 1, FRESH: 2, SRC: 3}
+COQ_NAME = {DEEP: 'DeepCopy', REBUILT: 'Rebuilt', FRESH: 'FreshList', SRC: 'ByRef'}
+HARMLESS_CALLS = {'split', 'isinstance', 'len', 'str', 'bool', 'int', 'float', 'type', 'id', 'repr', 'print',
+                  'get_error_name', 'Path', 'hasattr'}
+MUTATORS = {'update', 'append', 'extend', 'insert', 'add', 'setdefault', 'appendleft'}
+
+
+class Untranslatable(Exception):
+    pass
+
+
+def dump(e):
+    return ast.dump(e, annotate_fields=False)
+
+
+def expr_of(text):
+    return ast.parse(text, mode='eval').body
+
+
+def is_logging(st):
+    return (isinstance(st, ast.Expr) and isinstance(st.value, ast.Call)
+            and isinstance(st.value.func, ast.Attribute) and isinstance(st.value.func.value, ast.Name)
+            and st.value.func.value.id == 'logger')
+
+
+def is_doc(st):
+    return isinstance(st, ast.Expr) and isinstance(st.value, ast.Constant) and isinstance(st.value.value, str)
+
+
+def find_function(tree, qual):
+    body, node = tree.body, None
+    for p in qual.split('.'):
+        node = next((n for n in body if isinstance(n, (ast.FunctionDef, ast.ClassDef)) and n.name == p), None)
+        if node is None:
+            raise Untranslatable(f'{qual} not found')
+        body = node.body
+    return node
+
+
+def tainted(vals):
+    return bool(vals & {SRC, FRESH})
+
+
+def component(vals):
+    """abstract value of x[k] / x.get(k) / an element of x."""
+    return {SRC if v == FRESH else v for v in vals}
+
+
+class Flow:
+    """abstract interpretation of one function for one (sources, sink)."""
+
+    def __init__(self, fn, sources, sink, fmt, siblings=None, depth=0):
+        self.siblings = siblings or {}
+        self.depth = depth
+        self.fn = fn
+        self.sources = {dump(expr_of(s)) for s in sources}
+        self.sink = sink
+        self.fmt = fmt          # abstract result of formatting a SRC value (REBUILT, or SRC when it leaks)
+        self.found = set()
+        self.hits = 0
+
+    # ---- expressions
+    def ev(self, e, env):
+        if dump(e) in self.sources:
+            return {SRC}
+        if isinstance(e, ast.Name):
+            return set(env.get(e.id, {OTHER}))
+        if isinstance(e, (ast.Constant, ast.JoinedStr, ast.Compare, ast.UnaryOp, ast.Lambda)):
+            return {OTHER}
+        if isinstance(e, ast.Attribute):
+            return component(self.ev(e.value, env)) if not isinstance(e.value, ast.Name) or e.value.id != 'self' \
+                else {OTHER}
+        if isinstance(e, ast.Subscript):
+            return component(self.ev(e.value, env))
+        if isinstance(e, ast.IfExp):
+            return self.ev(e.body, env) | self.ev(e.orelse, env)
+        if isinstance(e, ast.BoolOp):
+            out = set()
+            for v in e.values:
+                out |= self.ev(v, env)
+            return out
+        if isinstance(e, ast.BinOp):
+            both = self.ev(e.left, env) | self.ev(e.right, env)
+            if isinstance(e.op, ast.Add):
+                return {FRESH if v == SRC else v for v in both}      # a new list / tuple
+            if tainted(both):
+                raise Untranslatable(f'operator {type(e.op).__name__} on a source value')
+            return {OTHER}
+        if isinstance(e, ast.Call):
+            return self.call(e, env)
+        if isinstance(e, (ast.Dict, ast.List, ast.Tuple, ast.Set, ast.ListComp, ast.DictComp, ast.SetComp,
+                          ast.GeneratorExp)):
+            if isinstance(e, ast.Dict) and self.sink[0] == 'dictkey':
+                for k, v in zip(e.keys, e.values):
+                    if isinstance(k, ast.Constant) and k.value == self.sink[1]:
+                        self.hit(self.ev(v, env))
+                    elif tainted(self.ev(v, env)):
+                        raise Untranslatable('source value stored in a display')
+                return {OTHER}
+            for sub in ast.iter_child_nodes(e):
+                for n in ast.walk(sub):
+                    if isinstance(n, ast.expr) and not isinstance(n, (ast.expr_context,)):
+                        try:
+                            if tainted(self.ev(n, env)):
+                                raise Untranslatable('source value inside a display / comprehension')
+                        except Untranslatable:
+                            raise
+                        except Exception:       # generators' inner names etc.
+                            pass
+            return {OTHER}
+        raise Untranslatable(f'expression {type(e).__name__}')
+
+    def call(self, e, env):
+        f = e.func
+        args = [self.ev(a, env) for a in e.args] + [self.ev(k.value, env) for k in e.keywords]
+        name = f.id if isinstance(f, ast.Name) else (f.attr if isinstance(f, ast.Attribute) else None)
+        fdump = dump(f)
+        # sinks that are calls
+        if self.sink[0] == 'call_arg' and fdump == dump(expr_of(self.sink[1])):
+            self.hit(self.ev(e.args[self.sink[2]], env))
+            return {OTHER}
+        if self.sink[0] == 'kwarg' and fdump == dump(expr_of(self.sink[1])):
+            for k in e.keywords:
+                if k.arg == self.sink[2]:
+                    self.hit(self.ev(k.value, env))
+            return {OTHER}
+        if self.sink[0] == 'ctor_arg' and name == self.sink[1]:
+            self.hit(self.ev(e.args[self.sink[2]], env))
+            return {OTHER}
+        if fdump in (dump(expr_of('copy.deepcopy')), dump(expr_of('deepcopy'))) and len(e.args) == 1:
+            return {OTHER if v == OTHER else DEEP for v in args[0]}
+        if name == 'list' and isinstance(f, ast.Name) and len(e.args) == 1:
+            return {FRESH if v == SRC else v for v in args[0]}
+        if isinstance(f, ast.Attribute):
+            recv = self.ev(f.value, env)
+            if name == 'copy' and not e.args:
+                return {FRESH if v == SRC else v for v in recv}
+            if name == 'get':
+                out = component(recv)
+                for a in args[1:]:
+                    out |= a
+                return out
+            if name in ('get_formatted_value', 'vformat', '_get_formatted_iterable') and e.args:
+                return {OTHER if v == OTHER else (self.fmt if v in (SRC, FRESH) else v) for v in args[0]}
+            if name == 'get_formatted':
+                # formats context[key]: a SRC value when context[key] is a source of this point
+                key = e.args[0] if e.args else None
+                sub = ast.Subscript(value=f.value, slice=key, ctx=ast.Load()) if key is not None else None
+                if sub is not None and dump(sub) in self.sources:
+                    return {self.fmt}
+                return {OTHER}
+            if name in ('items', 'keys', 'values') and not e.args:
+                return component(recv)
+            if tainted(recv) and name not in MUTATORS:
+                raise Untranslatable(f'method .{name}() of a source value')
+        if any(tainted(a) for a in args):
+            if (isinstance(f, ast.Attribute) and isinstance(f.value, ast.Name) and f.value.id in ('cls', 'self')
+                    and name in self.siblings and self.depth < 3):
+                # a method of the same class: does any of its parameters reach its return value?
+                callee = self.siblings[name]
+                formal = [a.arg for a in callee.args.args if a.arg not in ('self', 'cls')]
+                params = [formal[n] for n, a in enumerate(e.args) if n < len(formal) and tainted(self.ev(a, env))]
+                params += [k.arg for k in e.keywords if k.arg and tainted(self.ev(k.value, env))]
+                try:
+                    d = Flow(callee, params, ('return',), self.fmt, self.siblings, self.depth + 1).run()
+                except Untranslatable as ex:
+                    if str(ex) == 'the source never reaches the sink':
+                        return {OTHER}
+                    raise
+                return {d}
+            if name in HARMLESS_CALLS:
+                return {OTHER}
+            if isinstance(f, ast.Attribute) and name in MUTATORS and isinstance(f.value, ast.Name):
+                return {OTHER}          # handled at statement level
+            raise Untranslatable(f'source value passed to unknown call {ast.unparse(f)}')
+        return {OTHER}
+
+    def hit(self, vals):
+        self.hits += 1
+        self.found |= vals
+
+    # ---- statements
+    def block(self, stmts, env):
+        """returns the environment after the block, or None when every path has left it."""
+        for st in stmts:
+            if env is None:
+                return None
+            env = self.stmt(st, env)
+        return env
+
+    @staticmethod
+    def join(a, b):
+        if a is None:
+            return b
+        if b is None:
+            return a
+        return {k: set(a.get(k, {OTHER})) | set(b.get(k, {OTHER})) for k in set(a) | set(b)}
+
+    def stmt(self, st, env):
+        if is_doc(st) or is_logging(st) or isinstance(st, (ast.Assert, ast.Pass, ast.Import, ast.ImportFrom)):
+            return env
+        if isinstance(st, ast.Assign):
+            vals = self.ev(st.value, env)
+            for tgt in st.targets:
+                if isinstance(tgt, ast.Name):
+                    env = dict(env)
+                    env[tgt.id] = vals
+                elif isinstance(tgt, ast.Subscript):
+                    if (self.sink[0] == 'store_sub' and isinstance(tgt.value, ast.Name)
+                            and tgt.value.id == self.sink[1] and isinstance(tgt.slice, ast.Constant)
+                            and tgt.slice.value == self.sink[2]):
+                        self.hit(vals)
+                    elif tainted(vals):
+                        if isinstance(tgt.value, ast.Name) and tgt.value.id in env:
+                            env = dict(env)
+                            env[tgt.value.id] = set(env[tgt.value.id]) | {SRC}
+                        else:
+                            raise Untranslatable('source value stored through a subscript')
+                elif isinstance(tgt, ast.Attribute):
+                    if tainted(vals) and not (isinstance(tgt.value, ast.Name) and tgt.value.id == 'self'):
+                        raise Untranslatable('source value stored in an attribute')
+                elif isinstance(tgt, (ast.Tuple, ast.List)):
+                    if tainted(vals):
+                        raise Untranslatable('source value unpacked')
+                    env = dict(env)
+                    for n in ast.walk(tgt):
+                        if isinstance(n, ast.Name):
+                            env[n.id] = {OTHER}
+                else:
+                    raise Untranslatable(f'assignment target {type(tgt).__name__}')
+            return env
+        if isinstance(st, ast.AugAssign):
+            if tainted(self.ev(st.value, env)):
+                raise Untranslatable('augmented assignment of a source value')
+            return env
+        if isinstance(st, ast.AnnAssign):
+            if st.value is not None and isinstance(st.target, ast.Name):
+                env = dict(env)
+                env[st.target.id] = self.ev(st.value, env)
+            return env
+        if isinstance(st, ast.Expr):
+            v = st.value
+            if (isinstance(v, ast.Call) and isinstance(v.func, ast.Attribute) and v.func.attr in MUTATORS
+                    and isinstance(v.func.value, ast.Name)):
+                # x.update(y) / x.append(y): x now holds components of y
+                self.ev(v, env)         # sinks among the arguments
+                got = set()
+                for a in list(v.args) + [k.value for k in v.keywords]:
+                    got |= self.ev(a, env)
+                if tainted(got) or got & {DEEP, REBUILT}:
+                    env = dict(env)
+                    env[v.func.value.id] = set(env.get(v.func.value.id, {OTHER})) | component(got)
+                return env
+            self.ev(v, env)
+            return env
+        if isinstance(st, ast.If):
+            self.ev(st.test, env)
+            return self.join(self.block(st.body, dict(env)), self.block(st.orelse, dict(env)))
+        if isinstance(st, (ast.For, ast.While)):
+            env = dict(env)
+            if isinstance(st, ast.For):
+                elt = component(self.ev(st.iter, env))
+                for n in ast.walk(st.target):
+                    if isinstance(n, ast.Name):
+                        env[n.id] = elt
+            else:
+                self.ev(st.test, env)
+            once = self.block(st.body, dict(env))
+            again = self.block(st.body, dict(self.join(env, once))) if once is not None else None
+            out = self.join(env, self.join(once, again))
+            return self.join(out, self.block(st.orelse, dict(out))) if st.orelse else out
+        if isinstance(st, ast.Try):
+            body = self.block(st.body, dict(env))
+            start = self.join(env, body)
+            out = self.block(st.orelse, dict(body)) if (st.orelse and body is not None) else body
+            for h in st.handlers:
+                out = self.join(out, self.block(h.body, dict(start)))
+            if st.finalbody:
+                out = self.block(st.finalbody, dict(out if out is not None else start))
+            return out
+        if isinstance(st, ast.With):
+            for item in st.items:
+                self.ev(item.context_expr, env)
+            return self.block(st.body, env)
+        if isinstance(st, ast.Return):
+            if st.value is not None:
+                vals = self.ev(st.value, env) if not isinstance(st.value, ast.Tuple) else None
+                if self.sink[0] == 'return':
+                    self.hit(vals if vals is not None else {OTHER})
+                elif self.sink[0] == 'return_elt':
+                    if not isinstance(st.value, ast.Tuple):
+                        raise Untranslatable('return value is not a tuple display')
+                    for n, el in enumerate(st.value.elts):
+                        v = self.ev(el, env)
+                        if n == self.sink[1]:
+                            self.hit(v)
+                        elif tainted(v):
+                            raise Untranslatable('source value returned outside the sink')
+                elif isinstance(st.value, ast.Tuple):
+                    for el in st.value.elts:
+                        self.ev(el, env)
+            return None
+        if isinstance(st, ast.Raise):
+            if st.exc is not None:
+                self.ev(st.exc, env)
+            return None
+        if isinstance(st, (ast.Continue, ast.Break)):
+            return env
+        raise Untranslatable(f'statement {type(st).__name__}')
+
+    def run(self):
+        env = {a.arg: {OTHER} for a in self.fn.args.args + self.fn.args.kwonlyargs}
+        for a in self.fn.args.args:
+            if dump(ast.Name(id=a.arg, ctx=ast.Load())) in self.sources:
+                env[a.arg] = {SRC}
+        self.block(self.fn.body, env)
+        real = self.found - {OTHER}
+        if not self.hits:
+            raise Untranslatable('sink not found')
+        if not real:
+            raise Untranslatable('the source never reaches the sink')
+        return max(real, key=lambda v: BADNESS[v])
+
+
+def container_branches(fn):
+    """RecursiveFormatter._get_formatted_iterable: what a Mapping / Sequence / Set input becomes.
+    REBUILT when each container branch of the isinstance ladder assigns `obj.__class__(<generator>)`."""
+    param = fn.args.args[1].arg
+    ladder = next((s for s in fn.body if isinstance(s, ast.If) and any(
+        isinstance(n, ast.Name) and n.id == 'isinstance' for n in ast.walk(s.test))), None)
+    if ladder is None:
+        raise Untranslatable('_get_formatted_iterable: no isinstance ladder')
+    seen = set()
+    result = REBUILT
+    node = ladder
+    newvar = None
+    while isinstance(node, ast.If):
+        names = {n.id for n in ast.walk(node.test) if isinstance(n, ast.Name)}
+        classes = names & {'Mapping', 'Sequence', 'Set', 'dict', 'list', 'set', 'tuple'}
+        if classes:
+            body = [s for s in node.body if not (is_doc(s) or is_logging(s))]
+            if len(body) != 1 or not isinstance(body[0], ast.Assign) or not isinstance(body[0].targets[0], ast.Name):
+                raise Untranslatable('_get_formatted_iterable: container branch is not one assignment')
+            newvar = body[0].targets[0].id
+            v = body[0].value
+            ok = (isinstance(v, ast.Call) and len(v.args) == 1
+                  and isinstance(v.args[0], (ast.GeneratorExp, ast.ListComp, ast.SetComp, ast.DictComp))
+                  and (dump(v.func) == dump(expr_of(f'{param}.__class__'))
+                       or dump(v.func) == dump(expr_of(f'type({param})'))
+                       or (isinstance(v.func, ast.Name) and v.func.id in ('dict', 'list', 'set', 'tuple'))))
+            if not ok:
+                if dump(v) == dump(ast.Name(id=param, ctx=ast.Load())):
+                    result = SRC
+                else:
+                    raise Untranslatable('_get_formatted_iterable: container branch builds something else')
+            seen |= classes
+        node = node.orelse[0] if len(node.orelse) == 1 and isinstance(node.orelse[0], ast.If) else None
+    if not ({'Mapping', 'dict'} & seen and {'Sequence', 'list'} & seen and {'Set', 'set'} & seen):
+        raise Untranslatable('_get_formatted_iterable: a container class has no branch')
+    # what is returned after the ladder must be the rebuilt value
+    rets = [s for s in fn.body if isinstance(s, ast.Return)]
+    if not rets or not isinstance(rets[-1].value, ast.Name) or rets[-1].value.id != newvar:
+        raise Untranslatable('_get_formatted_iterable: does not return the rebuilt value')
+    # an early return before the ladder may only hand back a memoised earlier result
+    for s in fn.body[:fn.body.index(ladder)]:
+        for n in ast.walk(s):
+            if isinstance(n, ast.Return) and dump(n.value) == dump(ast.Name(id=param, ctx=ast.Load())):
+                result = SRC
+    return result
+
+
+def parse(rel):
+    return ast.parse((REPO / rel).read_text())
+
+
+def siblings_of(tree, qual):
+    if '.' not in qual:
+        return {n.name: n for n in tree.body if isinstance(n, ast.FunctionDef)}
+    cls = find_function(tree, qual.rsplit('.', 1)[0])
+    return {n.name: n for n in cls.body if isinstance(n, ast.FunctionDef)}
+
+
+def analyse():
+    """[(point, discipline or None, note)]"""
+    rows = []
+    # ---- the formatter first: every other point may go through it
+    fmt = None
+    try:
+        ftree = parse('pypyr/formatting.py')
+        d3 = container_branches(find_function(ftree, 'RecursiveFormatter._get_formatted_iterable'))
+        d2 = Flow(find_function(ftree, 'RecursiveFormatter.vformat'), ['format_string'], ('return',), d3).run()
+        ctree = parse('pypyr/context.py')
+        d1 = Flow(find_function(ctree, 'Context.get_formatted_value'), ['input_value'], ('return',), d2).run()
+        d1b = Flow(find_function(ctree, 'Context.get_formatted'), ['self[key]'], ('return',), d2).run()
+        fmt = max([d1, d1b], key=lambda v: BADNESS[v])
+        rows.append(('TPFormat', fmt, f'_get_formatted_iterable containers: {d3}; vformat: {d2}; '
+                                      f'get_formatted_value: {d1}; get_formatted: {d1b}'))
+    except (Untranslatable, OSError, SyntaxError, IndexError) as e:
+        rows.append(('TPFormat', None, str(e)))
+    points = [
+        ('TPIn', 'pypyr/dsl.py', 'Step.set_step_input_context', ['self.in_parameters'],
+         ('call_arg', 'context.update', 0)),
+        ('TPConfigVars', 'pypyr/steps/configvars.py', 'run_step', ['config.vars'],
+         ('call_arg', 'context.update', 0)),
+        ('TPShortcutArgs', 'pypyr/pipeline.py', 'Pipeline.new_pipe_and_args', ["shortcut.get('args')", "shortcut['args']"],
+         ('return_elt', 1)),
+        ('TPShortcutParserArgs', 'pypyr/pipeline.py', 'Pipeline.new_pipe_and_args',
+         ["shortcut.get('parser_args')", "shortcut['parser_args']"], ('kwarg', 'cls', 'context_args')),
+        ('TPOnError', 'pypyr/dsl.py', 'Step.save_error', ['self.on_error'], ('dictkey', 'customError')),
+        ('TPForeach', 'pypyr/dsl.py', 'Step.foreach_loop', ['self.foreach_items'], ('store_sub', 'context', 'i')),
+        ('TPPypeArgs', 'pypyr/steps/pype.py', 'get_arguments', ["context['pype']", "context.get('pype')"],
+         ('ctor_arg', 'PypeArgs', 1)),
+    ]
+    for name, rel, qual, sources, sink in points:
+        try:
+            if fmt is None:
+                raise Untranslatable('the formatter could not be analysed')
+            tree = parse(rel)
+            d = Flow(find_function(tree, qual), sources, sink, fmt, siblings_of(tree, qual)).run()
+            rows.append((name, d, f'{rel} :: {qual}; source {sources[0]}; sink {sink}'))
+        except (Untranslatable, OSError, SyntaxError, IndexError) as e:
+            rows.append((name, None, f'{rel} :: {qual}: {e}'))
+    return rows
+
+
+def render(rows):
+    order = ['TPIn', 'TPConfigVars', 'TPShortcutArgs', 'TPShortcutParserArgs', 'TPOnError', 'TPForeach',
+             'TPPypeArgs', 'TPFormat']
+    by = {r[0]: r for r in rows}
+    bad = [r for r in rows if r[1] is None]
+    lines = ['(** Gen/GenC12.v - GENERATED by tools/py2coq_c12.py from the current source under the repository;',
+             '    do not edit.  The copy discipline found at each transfer point (see the translator). *)',
+             'From PV Require Import Alias.', '']
+    for n in order:
+        _, d, note = by[n]
+        lines.append(f'(* {n}: {note.replace("(*", "( *").replace("*)", "* )")} *)')
+    name = 'gen_transfer' if not bad else 'gen_transfer_UNTRANSLATED'
+    lines.append(f'Definition {name} (tp : tpoint) : discipline :=')
+    lines.append('  match tp with')
+    for n in order:
+        d = by[n][1]
+        lines.append(f'  | {n} => {COQ_NAME[d] if d else "ByRef"}')
+    lines.append('  end.')
+    return '\n'.join(lines) + '\n'
+
+
+def main():
+    text = render(analyse())
+    if not OUT.exists() or OUT.read_text() != text:
+        OUT.write_text(text)
+    if '--show' in sys.argv:
+        print(text)
+
+
+if __name__ == '__main__':
+    main()
